@@ -139,15 +139,10 @@ def run (s : Sexp) : String :=
     match translate c.schema c.q with
     | .error .outsideModel => "error=outside-model"
     | .error (.rejected _) => "model=rejected\tspec=PROP rejected\ttrig="
-    | .error .escape => "model=escape\tspec=PROP rejected\ttrig=F-C07-3"
+    | .error .escape => "model=escape\tspec=PROP rejected\ttrig="
     | .ok sq =>
       let sql := showSql c.q c.mult (execSql c.schema sq c.db)
-      let trig :=
-        if sql == mem then []
-        else
-          (if trigByClass sq then ["F-C07-1"] else []) ++
-          (if trigNull c.schema c.q c.db then ["F-C07-2"] else []) ++
-          (if trigEqJoin sq then ["F-C07-4"] else []) ++
-          (if trigLike sq then ["F-C07-5"] else [])
+      -- no open finding is left for C07: a deviation between the two worlds is a violation
+      let trig : List String := []
       s!"model=mem={mem} sql={sql}\tspec=PROP mem={mem} sql={mem}\ttrig={",".intercalate trig}"
 end KrroodVerif.Drive.C07
